@@ -420,6 +420,25 @@ def getDNN (buf : Bytes) : Outcome Bytes := do
   let f ← dnnLoop (buf.length + 1) buf []
   if f = [] then pure [] else chop1 f
 
+/-- `strings.Split(s, ".")` on the bytes of `s` (`cur` = the label being collected): always at least one label -/
+def splitDot : Bytes → Bytes → List Bytes
+  | [], cur => [cur]
+  | c :: r, cur => if c = dot then cur :: splitDot r [] else splitDot r (cur ++ [c])
+
+/-- `fqdnToRfc1035`: every label behind its length octet; a label over 62 octets or a result over 100 octets is an error -/
+def fqdnToRfc1035 (s : Bytes) : Outcome Bytes :=
+  let segs := splitDot s []
+  if segs.any (fun g => g.length > 62) then .err .other
+  else
+    let b := segs.flatMap fun g => UInt8.ofNat g.length :: g
+    if b.length > 100 then .err .other else pure b
+
+/-- `DNN.SetDNN(s)` on an element whose `Buffer` is `old`: the new `Buffer` (`Len` is its length); unchanged on error -/
+def setDNN (old s : Bytes) : Bytes :=
+  match fqdnToRfc1035 s with
+  | .ok b => b
+  | _ => old
+
 /-! ## nasType/NAS_MobileIdentity5GS.go (after fix ce0324a) -/
 
 inductive IdType | suci | guti | imei | stmsi | imeisv
